@@ -190,7 +190,7 @@ fn lists(t: &mut Tape, obs: &mut Obs) -> R {
     Ok(())
 }
 
-fn valid_body_for(ty: u16) -> Option<(MExt, Vec<u8>)> {
+pub fn valid_body_for(ty: u16) -> Option<(MExt, Vec<u8>)> {
     let idx = KNOWN_EXT_TYPES.iter().position(|x| *x == ty)?;
     let seed = [(ty >> 8) as u8, ty as u8, 0x31, 0x85, 0x21, 0x90, 3, 0x44, 7, 200, 0x10, 0x20, 0x30, 0x40, 2, 2, 9, 9, 9, 9, 1, 2, 3, 4, 5, 6, 7, 8, 9];
     let mut t = Tape::new(&seed);
